@@ -1132,6 +1132,12 @@ func UtxoValidateScriptDataHash(
 
 	// Determine which Plutus versions are used (Babbage has PlutusV1 and V2)
 	usedVersions := make(map[uint]struct{})
+	// Only the scripts the transaction requires contribute their language, not
+	// every reference script that sits on a referenced or spent UTxO
+	needed, _, err := common.RequiredScriptHashes(tx, ls)
+	if err != nil {
+		return err
+	}
 	if len(wits.WsPlutusV1Scripts) > 0 {
 		usedVersions[0] = struct{}{}
 	}
@@ -1155,6 +1161,10 @@ func UtxoValidateScriptDataHash(
 		if script == nil {
 			continue
 		}
+		if _, ok := needed[script.Hash()]; !ok {
+			// Not required by this transaction
+			continue
+		}
 		switch script.(type) {
 		case common.PlutusV1Script:
 			usedVersions[0] = struct{}{}
@@ -1175,6 +1185,10 @@ func UtxoValidateScriptDataHash(
 		}
 		script := utxo.Output.ScriptRef()
 		if script == nil {
+			continue
+		}
+		if _, ok := needed[script.Hash()]; !ok {
+			// Not required by this transaction
 			continue
 		}
 		switch script.(type) {
